@@ -70,6 +70,16 @@ CLAIMS = {
         note="transform dimension enumerated with concrete parameters; tolerance 1e-6; all axes "
              "known in the pre-state; floats as reals",
         ref="§4 C04"),
+    "C20": dict(
+        text="Recording hooks: for every linear/rapid entry, mode, None-pattern and argument pattern z3 "
+             "shows for all coordinates that each hook is called once per linear move with origin = "
+             "resolved position and target = independently computed absolute target, never for rapids, "
+             "and that the parameters of the last hook are emitted and remembered. Bundled extrusion "
+             "hook: hypot stubbed to a symbolic length; E equals ratio x length (M83) or previous E + "
+             "that (M82) in every distance/extrusion mode combination.",
+        note="math.hypot stubbed by contract; geometry triples concrete (keeps E linear); "
+             "interpolated segments only via the tracer frame condition",
+        ref="§4 C20"),
     "C07": dict(
         text="Inductive step of I7: after any of 96 call shapes from an arbitrary consistent state "
              "(symbolic feed, power, temperatures, E parameter, tool number) every state property "
